@@ -3,7 +3,7 @@
 The existing small / random streams make (nearly) every type a command parameter, so the whole dependency graph is
 command-reachable and a generator that orders the command-reachable part and the rest separately is never noticed.
 Here the dependency edges lie wholly or partly among types reachable ONLY through one other kind of root:
-  * an event payload (emit in a command with the payload written as a literal / let-literal / constructor call, so
+  * an event payload - bare or borrowed named type, the domain of the model - (emit in a command with the payload written as a literal / let-literal / constructor call, so
     that the payload type is not a parameter of the command; emit in a non-command helper, payload a parameter),
   * a channel parameter (Channel<T>, Channel<Vec<T>>),
   * the return type of a command WITHOUT parameters (direct, Result<T, String>, Vec<T>),
@@ -22,7 +22,7 @@ SD2 = ["Serialize", "Deserialize"]
 
 # (where, how, context)
 ROOT_KINDS = [("cmd", "event", "literal"), ("cmd", "event", "let_literal"), ("cmd", "event", "new"),
-              ("helper", "event", "direct"), ("helper", "event", "ref"), ("helper", "event", "vec"),
+              ("helper", "event", "direct"), ("helper", "event", "ref"), ("helper", "event", "literal"),
               ("cmd", "channel", "direct"), ("cmd", "channel", "vec"),
               ("cmd", "ret", "direct"), ("cmd", "ret", "result_ok"), ("cmd", "ret", "vec")]
 
